@@ -64,16 +64,19 @@ fn make_frame(kind: u8, id: LocalStreamId, payload: &[u8]) -> Frame<LocalStreamI
 /// (1) encode, then decode with the byte stream split at `k` (any position) into two reads.
 /// Preconditions (stated in unit.json): num < 2^61 (the header is num << 3); Open frames
 /// carry a Dialer id (Open has no role flag on the wire: only the opener sends it).
-fn round_trip_split(kind: u8, num: u64, role: Endpoint, payload: &[u8]) {
+fn round_trip_split(kind: u8, num: u64, role: Endpoint, payload: &[u8], split: Option<usize>) {
     let id = LocalStreamId { num, role };
     let mut enc = Codec::new();
     let mut wire = BytesMut::with_capacity(32);
     let r = Encoder::encode(&mut enc, make_frame(kind, id, payload), &mut wire);
     assert!(r.is_ok());
     let total = wire.len();
-    let k: usize = kani::any();
+    let k: usize = match split {
+        Some(k) => k, // one concrete split position per call (buffer lengths stay concrete)
+        None => kani::any(),
+    };
     kani::assume(k <= total);
-    kani::cover!(k > 0 && k < total);
+    kani::cover!(split.is_some() || (k > 0 && k < total));
 
     let mut dec = Codec::new();
     let mut src = BytesMut::with_capacity(32);
@@ -132,8 +135,39 @@ fn lemma_round_trip_any_split_small_id() {
     let payload: [u8; 3] = kani::any();
     let n: usize = kani::any();
     kani::assume(n <= 3);
-    round_trip_split(kind, num, role, &payload[..n]);
+    round_trip_split(kind, num, role, &payload[..n], None);
 }
+
+/// one-byte header (id < 16), every kind and role, Data payload of exactly one (symbolic)
+/// byte: the wire is 2 bytes (Open/Close/Reset) or 3 bytes (Data); split after K bytes,
+/// one harness per K = 0..=3 — jointly every split of these frames into two reads
+fn round_trip_small_id_split_at(k: usize) {
+    let kind: u8 = kani::any();
+    kani::assume(kind <= 3);
+    // the split must lie inside the frame: 3 bytes on the wire for Data, 2 otherwise
+    kani::assume(k <= 2 || kind == 1);
+    let num: u64 = kani::any();
+    kani::assume(num < 16);
+    let role = any_role();
+    kani::assume(kind != 0 || role == Endpoint::Dialer);
+    let payload: [u8; 1] = kani::any();
+    kani::cover!(kind == 1);
+    round_trip_split(kind, num, role, &payload, Some(k));
+}
+macro_rules! split_harness {
+    ($name:ident, $k:literal) => {
+        #[kani::proof]
+        #[kani::unwind(12)]
+        #[kani::stub(alloc::fmt::format, no_format)]
+        fn $name() {
+            round_trip_small_id_split_at($k);
+        }
+    };
+}
+split_harness!(lemma_round_trip_small_id_split_at_0, 0);
+split_harness!(lemma_round_trip_small_id_split_at_1, 1);
+split_harness!(lemma_round_trip_small_id_split_at_2, 2);
+split_harness!(lemma_round_trip_small_id_split_at_3, 3);
 
 /// every id below 2^61 (header varint of 1..=9 bytes), every kind and role, every split;
 /// payload empty or one byte
@@ -149,7 +183,7 @@ fn lemma_round_trip_any_split_any_id() {
     let role = any_role();
     kani::assume(kind != 0 || role == Endpoint::Dialer);
     let payload: [u8; 1] = kani::any();
-    round_trip_split(kind, num, role, &payload);
+    round_trip_split(kind, num, role, &payload, None);
 }
 
 /// (2)+(3)+(4) decode on EVERY 12-byte read buffer from the initial state.
@@ -181,25 +215,30 @@ fn contract_decode_arbitrary_bytes() {
     std::mem::forget(src);
 }
 
-/// (2) over the FULL width of the length varint (1..=9 bytes after a one-byte header), with
-/// the read buffer ending right after it: `len > 1 MiB => Err`, `len <= 1 MiB` (payload not
-/// there yet) => Ok(None), never a frame.
-#[kani::proof]
-#[kani::unwind(14)]
-#[kani::stub(alloc::fmt::format, no_format)]
-fn contract_decode_length_limit_full_width() {
+/// (2) over the FULL width of the length varint: a one-byte header followed by a length
+/// varint of exactly W bytes (W = 1..=9, one call per width so that the buffer length is
+/// concrete), the read buffer ending right after it: `len > 1 MiB => Err` with nothing
+/// reserved, `0 < len <= 1 MiB` (payload not there yet) => Ok(None), never a frame.
+fn length_limit_width<const W: usize>() {
     let raw: [u8; 10] = kani::any();
     kani::assume(raw[0] < 0x80);
-    let have: usize = kani::any();
-    kani::assume(have >= 2 && have <= 10);
-    let mut src = buf_from(&raw[..have]);
+    // the length varint occupies raw[1..=W]: continuation bits on all but the last byte
+    let mut i = 1;
+    while i < W {
+        kani::assume(raw[i] >= 0x80);
+        i += 1;
+    }
+    kani::assume(raw[W] < 0x80);
+    let mut src = buf_from(&raw[..W + 1]);
     let cap0 = src.capacity();
     let mut dec = Codec::new();
     let r = Decoder::decode(&mut dec, &mut src);
-    if let Some((len, j)) = spec_varint(&raw, 1) {
-        if j == have {
-            kani::cover!(len == MIB as u64);
-            kani::cover!(len == MIB as u64 + 1);
+    match spec_varint(&raw, 1) {
+        Some((len, j)) => {
+            assert!(j == W + 1);
+            // 1 MiB = 2^20 needs 3 varint bytes: both sides of the limit exist from W = 3 on
+            kani::cover!(W < 3 || len == MIB as u64);
+            kani::cover!(W < 3 || len == MIB as u64 + 1);
             if len > MIB as u64 {
                 assert!(r.is_err());
                 assert!(src.capacity() <= cap0);
@@ -212,10 +251,31 @@ fn contract_decode_length_limit_full_width() {
                 }
             }
         }
+        None => assert!(false),
     }
     std::mem::forget(r);
     std::mem::forget(src);
 }
+
+macro_rules! length_limit_harness {
+    ($name:ident, $w:literal) => {
+        #[kani::proof]
+        #[kani::unwind(14)]
+        #[kani::stub(alloc::fmt::format, no_format)]
+        fn $name() {
+            length_limit_width::<$w>();
+        }
+    };
+}
+length_limit_harness!(contract_decode_length_limit_width_1, 1);
+length_limit_harness!(contract_decode_length_limit_width_2, 2);
+length_limit_harness!(contract_decode_length_limit_width_3, 3);
+length_limit_harness!(contract_decode_length_limit_width_4, 4);
+length_limit_harness!(contract_decode_length_limit_width_5, 5);
+length_limit_harness!(contract_decode_length_limit_width_6, 6);
+length_limit_harness!(contract_decode_length_limit_width_7, 7);
+length_limit_harness!(contract_decode_length_limit_width_8, 8);
+length_limit_harness!(contract_decode_length_limit_width_9, 9);
 
 /// Vacuity canary: must FAIL (claims the role is NOT mirrored).
 #[kani::proof]
